@@ -40,7 +40,7 @@ type Conn struct {
 }
 
 func NewConn(local net.Addr) *Conn {
-	return &Conn{local: local, in: make(chan Pkt), Ready: make(chan struct{}, 1 << 16), outSig: make(chan struct{}, 1 << 16), closed: make(chan struct{})}
+	return &Conn{local: local, in: make(chan Pkt), Ready: make(chan struct{}, 1<<16), outSig: make(chan struct{}, 1<<16), closed: make(chan struct{})}
 }
 
 func (c *Conn) ReadFrom(p []byte) (int, net.Addr, error) {
